@@ -134,7 +134,11 @@ attribute rows: 0 the name is in pyanalyze's default `IgnoredEndOfReference` lis
 written as a dotted name (`E.A`, `math`); 2 the operand is a class and the name statically resolves,
 along the class's own MRO, to a property-like descriptor (getset/member descriptor, `property`,
 `enum.property`); 3 the operand is a class with a closed attribute set (enum, tuple subclass, dataclass,
-builtin/stdlib class other than `type`, `super`, function). -/
+builtin/stdlib class other than `type`, `super`, function); 4 answered by pyanalyze's default
+`KnownAttributeHook` (`sys.modules`); 5 the operand is a class; 6 it is a module; 7 module and the name
+is in its `__annotations__`; 8 `type(operand)` defines `__getattr__`; 9 class operand and the `__dict__`
+of a class of its MRO has the name; 10 class operand that is an Enum subclass; 11 class operand and
+the stubs (typeshed) of a class of its MRO declare the name as a variable or a property. -/
 def rtOf (n : Nat) : Rt :=
   match n with | 0 => .notImpl | 1 => .raisesTE | 2 => .raisesOther | _ => .value
 
@@ -167,11 +171,13 @@ class with a closed attribute set: never reported. -/
 def D19_ignoredEndOfReference (x : Row) : Bool :=
   x.k == 2 && x.bit 0 && x.bit 1 && !x.bit 3
 
-/-- **`classLevelDescriptor`**: attribute of a *class object* that is a property-like descriptor
-meant for instances (`int.imag`, `E.name`): pyanalyze answers with the instance-level type from the
-stubs, whatever the class-level access does. -/
+/-- **`classLevelDescriptor`**: attribute of a *class object* that is meant for instances: a
+property-like descriptor (`int.imag`, `E.name`), or a name that only the stubs / a raising descriptor
+provide on the class (`int.__annotations__`, `E._value_`, `type.__abstractmethods__`: class-level access
+raises AttributeError). pyanalyze answers with the instance-level type from the stubs (or `Any`),
+whatever the class-level access does. -/
 def D19_classLevelDescriptor (x : Row) : Bool :=
-  x.k == 2 && (x.ta == 11 || x.ta == 12) && x.bit 2
+  x.k == 2 && (x.ta == 11 || x.ta == 12) && (x.bit 2 || ((x.bit 9 || x.bit 11) && x.c == 2))
 
 def D19 (x : Row) : Bool :=
   D19_classAsIndex x || D19_sameTypeReflected x || D19_subclassReflected x ||
@@ -204,23 +210,48 @@ def agree (x : Row) : Bool :=
   | some true => x.p == 2
   | some false => x.p == 1 || (x.p == 0 && x.pt == x.ct && x.pv == x.cv)
 
+/-- The lookup facts of an attribute row (Core/Ops `AttrFacts`). -/
+def Row.attrFacts (x : Row) : AttrFacts :=
+  { hooked := x.bit 4, isEnumCls := x.bit 10, isModule := x.bit 6, modAnn := x.bit 7, isType := x.bit 5,
+    stubAttr := x.bit 2 || x.bit 11, inMroDict := x.bit 9,
+    getattr := bif x.c == 0 then .ok else bif x.c == 2 then .attributeError else .otherExc }
+
+def Row.attrMiss (x : Row) : AttrMiss :=
+  { onlyKnown := x.bit 3, hasGetattr := x.bit 8, ignoredRef := x.bit 0 && x.bit 1 }
+
 /-- Defect-including model of "does pyanalyze diagnose this row" in terms of the input facts and
-CPython's outcome: what the property demands, except in the classes where the pinned tree is known to
-stay silent. -/
+CPython's outcome. Attribute rows: the Lean model of the known-object lookup (`attrReported`). Other
+rows: what the property demands, except in the classes where the pinned tree is known to stay silent. -/
 def modelDiag (x : Row) : Option Bool :=
+  if x.k == 2 then
+    (bif x.c == 0 || x.c == 2 then some (attrReported x.attrFacts x.attrMiss) else none)
+  else
   match specDiag x with
   | none => none
   | some false => some false
   | some true =>
-    if D19_classAsIndex x || D19_sameTypeReflected x || D19_ignoredEndOfReference x ||
-       D19_classLevelDescriptor x then some false else some true
+    if D19_classAsIndex x || D19_sameTypeReflected x then some false else some true
+
+/-- Attribute rows on an object that is not a class: when the model finds the attribute through
+`getattr`, pyanalyze must infer exactly that literal. -/
+def modelLit (x : Row) : Bool :=
+  x.k == 2 && !x.bit 5 && x.c == 0 && knownAttr x.attrFacts == .literal
 
 /-- Implementation conforms to the model on a row (or, inside an exception class, already satisfies
 the property: the defect was repaired). -/
 def conforms (x : Row) : Bool :=
   match modelDiag x with
   | none => true
-  | some d => ((x.p == 2) == d) || (D19 x && agree x)
+  | some d =>
+    (((x.p == 2) == d) && (!modelLit x || (x.p == 0 && x.pt == x.ct && x.pv == x.cv))) ||
+    (D19 x && agree x)
+
+/-- Consistency of the facts of an attribute row (hypothesis of `attr_model_meets_spec_partial`):
+hooked / module-annotated names exist, `type(operand)` has no `__getattr__`, the class bits go with
+the class tags. -/
+def attrWF (x : Row) : Bool :=
+  (!x.bit 4 || x.c == 0) && (!x.bit 7 || x.c == 0) && !x.bit 8 &&
+  (x.bit 5 == (x.ta == 11 || x.ta == 12))
 
 /-- The dunder-level spec `cpyBinop` reproduces what CPython did on a binary row. -/
 def specMatches (x : Row) : Bool :=
